@@ -110,11 +110,28 @@ def runSpec (files : List SrcFile) (items : List String) (nErrors : Nat) : Strin
   match loadAll files with
   | .error _ => "outside " ++ encStr "the texts do not load"
   | .ok r =>
-    match parts r, graph r with
-    | some ps, some G =>
+    match parts r, graph r, registrations r, survivorGraph r with
+    | some ps, some G0, some R, some GS =>
+      -- several identity statements for one vertex (RFC 7950 rules them out, goyang loads them): the
+      -- verdict is taken over the graph of the surviving statements, and only the items of the
+      -- surviving statements are judged (Props.C11: `…_surviving`; `survivor_graph_is_graph`: without
+      -- duplicates the two graphs are the same up to order).  Several such statements within ONE
+      -- (sub)module text give items with the same (root, vertex): the items do not say which statement
+      -- carries which list, so of such a group ONE item has to carry the right list.
+      let dup := G0.verts.eraseDups.length != G0.verts.length
+      let G := if dup then GS else G0
+      let sv := survivors R
       let partNames := ps.map (·.fullName)
-      let vals := (items.filterMap parseIdentityItem).filterMap fun (root, v, l) =>
-        if partNames.contains root then some (v, l) else none
+      let cand := (items.filterMap parseIdentityItem).filter fun (root, v, _) =>
+        partNames.contains root && (!dup || sv.any fun x => x.1 == v && x.2.1.fullName == root)
+      let vals : List (Vertex × List Vertex) :=
+        if dup then
+          (cand.map fun (root, v, _) => (root, v)).eraseDups.filterMap fun (root, v) =>
+            let grp := cand.filter fun (root', v', _) => root' == root && v' == v
+            match grp.find? (fun (_, _, l) => valuesOK G v l == some true) with
+            | some (_, _, l) => some (v, l)
+            | none => grp.head?.map fun (_, _, l) => (v, l)
+        else cand.map fun (_, v, l) => (v, l)
       let leaves := items.filterMap parseLeafItem
       -- the list seen through an identityref has to be the list of the identity it names
       let vals := vals ++ leaves.flatMap (·.2)
@@ -129,7 +146,7 @@ def runSpec (files : List SrcFile) (items : List String) (nErrors : Nat) : Strin
       | .holds => "holds"
       | .violates why => "violates " ++ encStr why
       | .outside why => "outside " ++ encStr why
-    | _, _ => "outside " ++ encStr "closure did not finish"
+    | _, _, _, _ => "outside " ++ encStr "closure did not finish"
 
 def splitAt (sep : String) (l : List String) : List String × List String :=
   (l.takeWhile (· != sep), (l.dropWhile (· != sep)).drop 1)
